@@ -2,19 +2,40 @@
 
 Per case a set of invocation trees is generated (1-3 arch arguments; invocations with step.csv, logs, dmesg, comment,
 tags, patches; missing runs, suites added and removed over time, several invocations per day, equal start times,
-duplicate suites, exit codes incl. the timeout code, logs with FAILED / SKIPPED / EXPECTED_FAIL / UNEXPECTED_PASS
-markers, invalid inputs), robsd-regress-html is run on it, index.html is parsed into a matrix and the output tree
-is read back.  The extracted model (run_html_exec) must produce the same matrix and tree (correspondence); the
-extracted oracle (spec_check) is applied to what the implementation produced.  A leaf harness
-(harness/html_leaf.c, #include "regress-html.c") ties render_rate, duration_delta, render_duration, the status
-table and the three comparison functions to the model on grids.  The duplicate-suite stream also runs under an
-AddressSanitizer build (the thorough tier runs every stream under it).
+duplicate suites, invocations of different arches interleaved in time with per-step times hours after the start, exit
+codes incl. the timeout code, logs with FAILED / SKIPPED / EXPECTED_FAIL / UNEXPECTED_PASS markers and one log above
+8 KiB, up to 70 invocations, invalid inputs), robsd-regress-html is run on it and exit status, the BYTES of index.html
+and the output tree are read back.
 
-Every case is also put to `self` (driver): the oracle applied to the MODEL's own page - the executed form of
-C14_oracle_accepts_model_partial (ok, or clause 6 alone and then only with ties/duplicates); anything else is a tie error.
-render_suite's end pointer / loop test / break test are read by the translator (walk_end_extra, walk_end_strict,
-walk_break_eq) and the model follows them (HtmlDefs.walk_ix), so an off-by-one bound shows up as a broken proof
-(HtmlProofs.walk_params_sane) AND as an out-of-bounds row of the model that the ASan lane confirms on the binary.
+Correspondence: the extracted model (run_html_exec + HtmlPage.page_bytes) must produce the same exit status, the same
+index.html byte for byte and the same tree.  Oracle: the extracted strict reader (HtmlParse.parse_index: every tag
+closed in order, no stray end tag, no duplicate attribute, nothing but the expected document) turns the real index.html
+into the matrix, the extracted spec_check judges it and rows_report judges the cell clause ROW BY ROW (driver command
+judge).  The python html.parser reading of the page is kept only as a cross-check of the strict reader.  A leaf
+harness (harness/html_leaf.c, #include "regress-html.c") ties render_rate, duration_delta, render_duration, the status
+table and the three comparison functions to the model on grids.  The duplicate-suite stream also runs under an
+AddressSanitizer build (the thorough tier runs every stream under it).  A rerun lane generates a second time into the
+populated output directory (observed: exit 1 at the first mkdir, nothing touched).
+
+Every case is also put to `self`/`selfrows`/`page` (driver): the oracle and the reader applied to the MODEL's own page -
+the executed forms of C14_oracle_accepts_model_partial, C14_oracle_row_accepts_model, C14_oracle_clause6_is_per_row and
+C14_index_roundtrip; anything else is a tie error.
+
+Which failing row is the known finding (M4 of gap report 2): a row whose cells are not the specified ones is
+run-shown-under-wrong-invocation only if THAT ROW's suite violates HtmlRow.row_guard (the suite is recorded twice in
+one invocation / an invocation in which it ran shares its start time with another one; the booleans come from the
+extracted rows_report, nothing is re-implemented here) AND the row is still sound (every cell a run of that suite, in
+a column not newer than the run's invocation: HtmlRow.cells_sound).  A failing row whose suite satisfies the guard is
+cell-wrong-for-guarded-row, an unsound row is cell-not-a-run-of-its-suite - ordinary violations.
+
+Outside the property (AGENT_WAVE3 item 1b, decided by a predicate on the CASE, markup_names): arch, directory, suite
+or log names that are empty, begin or end with white space, or hold a less-than sign or a double quote.  The property's
+quantifier enumerates the structural variation of the invocations "and all log contents"; logs never enter index.html,
+and the names that do are made by robsd itself (date directories, NNN-name.log) or are OpenBSD source paths and arch
+names.  The statement speaks of "the rendered table", its rows, cells and links - notions that presuppose that the
+names do not change the markup; html.c escapes nothing (findings/C14_html_no_escaping.md: an upstream bug), so for
+such names there is no table to judge.  These cases are counted under `outside: ...`, the oracle does not judge them,
+the byte-for-byte correspondence still runs.  The predicate is the complement of the guard of C14_index_roundtrip_input.
 
 Signatures: pass-rate-truncated (defect D8, repaired in /repo ea4de2c) and column-pointer-out-of-bounds (defect D9,
 repaired in 4acd4e2) come back with the replays of corpus/C14 when a repair is reverted;
@@ -25,21 +46,26 @@ import common
 from common import hexs
 import c14_fixture as fx
 
-TRANSLATORS = ['t_html', 't_step', 't_interp']
+TRANSLATORS = ['t_html', 't_step', 't_interp', 't_regresslog']
 TRUSTED = ['modelled, not verified: the file system (readdir/d_type, open O_EXCL, mkdir, access, read), qsort(3) '
            '(hypothesis "returns a sorted permutation"; the driver runs a stable insertion sort, agreement on equal keys '
            'is observed for glibc 2.36, not claimed), strstr/strchr/strncmp/fnmatch of libc, printf("%d"), '
            'IEEE 754 binary32 arithmetic of the compiler/CPU for render_rate (modelled by exact rationals with '
            'round-to-nearest-even, tied on a grid by harness/html_leaf.c)',
-           'index.html is compared as the matrix the harness parses out of it with html.parser (table/thead/tr/th, '
-           'tbody/tr/td, class, a/href, text), not as bytes; names without <, > and double quote (html.c does not escape; '
-           'a name containing a character reference such as &amp; is shown decoded by a browser - observed, not a claim of C14)',
-           'inputs: arch names and log names without "/", output directory empty at the start, regular files readable; '
-           'invocation directory names pairwise distinct per arch (readdir)']
+           'index.html is compared byte for byte with the model (HtmlPage.page_bytes) and judged as the matrix the extracted '
+           'strict reader HtmlParse.parse_index returns (no character references are decoded: a name containing &amp; is '
+           'shown decoded by a browser - observed, not a claim of C14); names that are empty, begin or end with white '
+           'space or hold < or a double quote are outside the property (html.c does not escape)',
+           'inputs: arch names and log names without "/", output directory empty at the start (observed otherwise: exit 1 '
+           'at the first mkdir, nothing touched), regular files readable; invocation directory names pairwise distinct '
+           'per arch (readdir)']
 
 SIG_RATE = 'pass-rate-truncated'
 SIG_WRONG = 'run-shown-under-wrong-invocation'
 SIG_OOB = 'column-pointer-out-of-bounds'
+SIG_GUARDED = 'cell-wrong-for-guarded-row'
+SIG_UNSOUND = 'cell-not-a-run-of-its-suite'
+SIG_MALFORMED = 'index-html-malformed'
 
 HDR = b'step,name,exit,duration,delta,log,user,time,skip\n'
 ARCHES = [b'amd64', b'arm64', b'sparc64', b'i386']
@@ -50,6 +76,8 @@ SUITES = [b'bin/ksh', b'bin/ed', b'lib/libc/malloc', b'lib/libc/sys', b'sys/kern
 # '<', '>' and '"' would change the markup itself and are left out, see TRUSTED)
 SPECIAL = [b'a&b/c', b"q'x/y", b'p;q/r', b'sp ace/x', b'per%cent/x', b'utf\xc3\xa9/x', b'x/#frag', b'x/?q=1',
            b'tab\there/x', b'x/y&']
+# names that change the markup itself or that a reader trims (outside the property, see markup_names)
+MARKUP = [b'a<b>/c', b'q"x/y', b'x/<i>', b'x/lt<', b' lead/x', b'trail/x ', b'x/a"b"', b'<td>/x', b'x/</a>']
 NONSUITE = [b'env', b'cvs', b'patch', b'obj', b'mount', b'dmesg', b'revert', b'unmount']
 KW = [b'FAILED', b'SKIPPED', b'DISABLED', b'EXPECTED_FAIL', b'UNEXPECTED_PASS', b'PASSED', b'XFAILED', b'NOT_SKIPPED']
 MARK = [b'==== t1 ====', b'==== run-a b ====', b'===> sub/dir', b'==== x ==== ', b'====x ====']
@@ -57,9 +85,12 @@ WORDS = [b'cc -o x x.c', b'ok', b'', b'*** Error 1 in .', b'a\x00FAILED', b'junk
 DAY0 = 1666569600   # 2022-10-24 00:00:00 UTC
 
 
-def gen_log(rng, want=None):
-    """a log; [want] steers it towards an outcome keyword"""
+def gen_log(rng, want=None, big=False):
+    """a log; [want] steers it towards an outcome keyword; [big]: more than 8 KiB (parse_run_log reads into a buffer
+    of 1 << 13 bytes that has to grow)"""
     lines = []
+    if big:
+        lines += [b'cc -O2 -pipe -o t%04d t%04d.c' % (k, k) for k in range(rng.choice([300, 340, 700]))]
     if rng.random() < 0.5:
         lines += [b'+ ' + rng.choice(WORDS + KW) for _ in range(rng.randint(1, 2))]
     n = rng.choice([0, 1, 2, 3, 5])
@@ -96,8 +127,9 @@ def gen_invocation(rng, name, time, suites, opts):
     """suites: list of suite names (duplicates allowed) that ran"""
     rows = []
     files = []
+    gap = opts.get('step_gap', 1)        # seconds between the steps of this invocation
     for nm in rng.sample(NONSUITE, rng.randint(0, 3)):
-        rows.append({'name': nm, 'time': time + len(rows), 'duration': rng.randint(0, 50),
+        rows.append({'name': nm, 'time': time + gap * len(rows), 'duration': rng.randint(0, 50),
                      'log': b'%03d-%s.log' % (len(rows) + 1, nm)})
     if opts.get('first_time_differs') and rows:
         rows[0]['time'] = time     # the first row decides; later rows carry later times anyway
@@ -118,11 +150,14 @@ def gen_invocation(rng, name, time, suites, opts):
             want = b'FAILED'
         elif k < 0.68:
             want = b'DISABLED'
-        log = gen_log(rng, want)
+        big = bool(opts.get('big_log')) and not used
+        log = gen_log(rng, want, big)
         ln = b'%03d-%s.log' % (len(rows) + 1, s.replace(b'/', b'-'))
+        if opts.get('markup_log') and rng.random() < 0.3:
+            ln = b'%03d-"q".log' % (len(rows) + 1)
         if opts.get('shared_log') and used and rng.random() < 0.5:
             ln = sorted(used)[0]
-        r = {'name': s, 'exit': ex, 'time': time + len(rows), 'duration': rng.randint(0, 500), 'log': ln}
+        r = {'name': s, 'exit': ex, 'time': time + gap * len(rows), 'duration': rng.randint(0, 500), 'log': ln}
         if not rows:
             r['time'] = time
         rows.append(r)
@@ -130,11 +165,11 @@ def gen_invocation(rng, name, time, suites, opts):
             files.append([ln, log])
         used.add(ln)
     dur = opts.get('duration', rng.choice([0, 59, 60, 600, 601, 1800, 3599, 3600, 3660, 7200, 86400, 100000]))
-    rows.append({'name': b'end', 'time': time + 5000, 'duration': dur})
+    rows.append({'name': b'end', 'time': time + max(5000, gap * (len(rows) + 1)), 'duration': dur})
     if not suites and len(rows) == 1:
         rows[0]['time'] = time
     if rng.random() < 0.08:     # a step after end, a second end
-        rows.append({'name': b'end', 'time': time + 6000, 'duration': dur + 1})
+        rows.append({'name': b'end', 'time': time + max(6000, gap * (len(rows) + 2)), 'duration': dur + 1})
     if rng.random() < 0.92:
         files.append([b'dmesg', b'OpenBSD 7.2 (GENERIC.MP) #%d\n' % rng.randint(1, 999)])
     if rng.random() < 0.92:
@@ -188,9 +223,13 @@ def break_invocation(rng, ent):
     return ent
 
 
-def gen_case(rng, stream):
-    """stream: plain | tie | dup | error | wide | special | many"""
+def gen_case(rng, stream, force=None):
+    """stream: plain | tie | dup | error | wide | special | many | overlap | markup | biglog;
+    force: {'ninv': n} pins the number of invocations of the first arch"""
+    force = force or {}
     narch = rng.choice([1, 1, 2, 2, 3])
+    if stream == 'overlap':
+        narch = rng.choice([2, 2, 3, 4])
     arches = rng.sample(ARCHES, narch)
     if rng.random() < 0.05 and narch >= 2:
         arches[1] = arches[0]                # the same arch twice: fine unless the dates collide
@@ -199,14 +238,23 @@ def gen_case(rng, stream):
     pool = rng.sample(SUITES, rng.randint(1, min(len(SUITES), rng.choice([2, 4, 6, 10]))))
     if stream == 'special':
         pool = rng.sample(SPECIAL, rng.randint(2, 5)) + rng.sample(SUITES, 2)
+    elif stream == 'markup':
+        pool = rng.sample(MARKUP, rng.randint(1, 3)) + rng.sample(SUITES, 2)
+        if rng.random() < 0.2:
+            arches[0] = rng.choice([b'am"d64', b'<arch>', b' amd64'])
     elif stream == 'many':
         pool = [b'gen/%s%02d' % (rng.choice([b's', b't', b'../u']), k) for k in range(rng.choice([30, 45, 80]))]
-    ninv = {'wide': rng.choice([16, 16, 17, 20, 32, 40]), 'dup': rng.choice([1, 2, 3, 16, 16])}.get(stream, rng.choice([0, 1, 2, 3, 4, 6]))
+    ninv = {'wide': rng.choice([16, 16, 17, 20, 32, 40, 64, 65, 70]), 'dup': rng.choice([1, 2, 3, 16, 16]),
+            'overlap': rng.choice([1, 2, 3, 4])}.get(stream, rng.choice([0, 1, 2, 3, 4, 6]))
+    ninv = force.get('ninv', ninv)
+    big_left = stream == 'biglog'
+    if stream == 'biglog':
+        ninv = max(ninv, 1)
     times_used = []
     out = []
     slot = 0
     for ai, arch in enumerate(arches):
-        n = ninv if ai == 0 else rng.choice([0, 1, 2, min(ninv, 4)])
+        n = ninv if ai == 0 or stream == 'overlap' else rng.choice([0, 1, 2, min(ninv, 4)])
         ents = []
         day, num = rng.randint(0, 3), 1
         prevdur = None
@@ -218,6 +266,11 @@ def gen_case(rng, stream):
                 num = 1
             name = b'2022-%02d-%02d.%d' % (10 + day // 28, 1 + day % 28, num)
             time = DAY0 + day * 86400 + num * 3600 + ai * 7 + rng.randint(0, 3)
+            if stream == 'overlap':
+                # every arch starts its i-th invocation within minutes of the others (cron on several machines)
+                day, num = i, 1
+                name = b'2022-%02d-%02d.%d' % (10 + day // 28, 1 + day % 28, num)
+                time = DAY0 + day * 86400 + ai * rng.choice([60, 600, 601]) + rng.randint(0, 5)
             while stream != 'tie' and time in times_used:
                 time += 1
             if stream == 'tie' and times_used and rng.random() < 0.6:
@@ -229,10 +282,20 @@ def gen_case(rng, stream):
             if stream == 'dup' and suites and (i == 0 or rng.random() < 0.3):
                 suites.insert(rng.randint(0, len(suites)), rng.choice(suites))
             opts = {}
+            if stream == 'overlap':
+                opts['step_gap'] = rng.choice([30, 300, 1800, 3600])
+            elif rng.random() < 0.15:
+                opts['step_gap'] = rng.choice([2, 60, 1800])
+            if stream == 'markup' and rng.random() < 0.3:
+                opts['markup_log'] = True
             if prevdur is not None and rng.random() < 0.7:
                 opts['duration'] = max(0, prevdur + rng.choice([-601, -600, -599, 0, 599, 600, 601, 3000, -3000]))
             if rng.random() < 0.04:
                 opts['shared_log'] = True
+            if big_left:
+                suites = suites or pool[:1]
+                opts['big_log'] = True
+                big_left = False
             e = gen_invocation(rng, name, time, suites, opts)
             prevdur = opts.get('duration', None)
             if prevdur is None:
@@ -276,6 +339,20 @@ def features(case):
             suites = [r[1] for r in rows if b'/' in r[1]]
             invs.append((t, suites))
     times = [t for t, _ in invs]
+    steptimes = []
+    big = False
+    for a in case['arches']:
+        for e in a['entries']:
+            if e['kind'] != 'dir' or not e.get('step'):
+                continue
+            big = big or any(len(x[1]) // 2 > 8192 for x in e.get('files', []))
+            rows = [l.split(b',') for l in bytes.fromhex(e['step']).split(b'\x00')[0].split(b'\n')[1:] if l]
+            rows = [r for r in rows if len(r) == 9]
+            try:
+                t0 = int(rows[0][7]) if rows else None
+                steptimes += [(t0, int(r[7])) for r in rows if b'/' in r[1]]
+            except ValueError:
+                pass
     f = {
         'ninv': len(invs),
         'narch': len(case['arches']),
@@ -283,8 +360,66 @@ def features(case):
         'dup_suite': any(len(set(s)) != len(s) for _, s in invs),
         'nsuites': len({x for _, s in invs for x in s}),
         'missing_runs': len({frozenset(s) for _, s in invs}) > 1,
+        # a suite ran after ANOTHER invocation had started later than its own (arches interleaved in time)
+        'overlap': any(t0 is not None and t0 < t <= ts for t0, ts in steptimes for t in times),
+        'big_log': big,
     }
     return f
+
+
+WS = b' \n\t\r\x0c'
+
+
+def _text_ok(b):
+    """HtmlParse.text_okb: not empty, no less-than sign, no white space at either end"""
+    return bool(b) and b'<' not in b and b[:1] not in [bytes([c]) for c in WS] and b[-1:] not in [bytes([c]) for c in WS]
+
+
+def _attr_ok(b):
+    """HtmlParse.attr_okb: no double quote"""
+    return b'"' not in b
+
+
+# OUTSIDE THE PROPERTY (AGENT_WAVE3 item 1b).  Argument from the text of C14 in properties.jsonl:
+#  * the quantifier lists how the SET OF INVOCATIONS varies ("missing runs, suites removed or added over time, several
+#    invocations per day, equal start times, the same suite recorded twice, 1..40 invocations") and adds exactly one
+#    free-text dimension, "all log contents".  Log contents never enter index.html (only their classification does);
+#    names are not a dimension of the quantifier, and the names that reach the page are made by robsd itself
+#    (YYYY-MM-DD.N directories, NNN-name.log) or are OpenBSD source paths and machine names;
+#  * the statement speaks of "the rendered table", its columns, rows, cells and links - notions that exist only when the
+#    names do not change the markup; html.c escapes nothing, so a name with < or a double quote (or one that a reader
+#    trims) leaves no table to judge: C14_index_roundtrip_refuted, findings/C14_html_no_escaping.md (an upstream bug).
+# The predicate below is the complement of the hypothesis of C14_index_roundtrip_input (HtmlParse.text_okb / attr_okb
+# on the arch, directory and suite names, attr_okb on the log names), evaluated on every directory the program walks
+# whether or not its step file turns out to be valid: the cases for which the theorems do not say that reading index.html
+# returns the matrix they speak about.  Such a case is counted under `outside: ...`, the
+# oracle does not judge it, the correspondence (exit status, bytes of index.html, output tree) still runs.
+def markup_names(case):
+    """The predicate that puts a case OUTSIDE property C14 (argument above): some arch name, invocation directory
+    name or suite name is not a name in the sense of C14_index_roundtrip_input (empty, white space at either end, a
+    less-than sign, a double quote), or a log name of a suite holds a double quote.  html.c writes names into the markup
+    unescaped, so for such a case index.html does not denote the table the property speaks of.  Returns the reason or
+    None.  Only what the program walks counts: directories that are not hidden and not attic."""
+    for a in case['arches']:
+        arch = bytes.fromhex(a['arch'])
+        walked = [e for e in a['entries'] if e['kind'] == 'dir' and not bytes.fromhex(e['name']).startswith(b'.')
+                  and bytes.fromhex(e['name']) != b'attic']
+        if walked and not (_text_ok(arch) and _attr_ok(arch)):
+            return 'arch name'
+        for e in walked:
+            nm = bytes.fromhex(e['name'])
+            if not (_text_ok(nm) and _attr_ok(nm)):
+                return 'directory name'
+            if not e.get('step'):
+                continue
+            for l in bytes.fromhex(e['step']).split(b'\x00')[0].split(b'\n')[1:]:
+                f = l.split(b',')
+                if len(f) == 9 and b'/' in f[1]:
+                    if not (_text_ok(f[1]) and _attr_ok(f[1])):
+                        return 'suite name'
+                    if not _attr_ok(f[5]):
+                        return 'log name'
+    return None
 
 
 # ---- encoding for the driver ---------------------------------------------------------------------------------
@@ -343,6 +478,40 @@ def obs_tokens(rc, matrix, tree):
     for p in sorted(tree):
         t += [hb(os.fsencode(p)), '!' if tree[p] is None else hexs(tree[p])]
     return t
+
+
+def judge_tokens(rc, index, tree):
+    """exit status, bytes of index.html (None: no such file), output tree"""
+    t = [str(rc if 0 <= rc < 256 else 255), '!' if index is None else hexs(index), str(len(tree))]
+    for p in sorted(tree):
+        t += [hb(os.fsencode(p)), '!' if tree[p] is None else hexs(tree[p])]
+    return t
+
+
+def matrix_tokens(matrix):
+    """the python reading of the page in the form the driver prints the strict reader's (M ...)"""
+    t = ['M', str(len(matrix['columns']))]
+    for c in matrix['columns']:
+        t += column_tokens(c)
+    t.append(str(len(matrix['rows'])))
+    for r in matrix['rows']:
+        t += [hb(r['suite']), hb(r['href'] or ''), str(len(r['cells']))]
+        for c in r['cells']:
+            t.append('!' if c is None else ':'.join(hb(x or '') for x in c))
+    return ' '.join(t)
+
+
+def parse_report(tok):
+    """'r suitehex:ok:sound:once:noties ...' -> list of dicts; '!' -> None"""
+    t = tok.split(' ')
+    if t[0] != 'r':
+        return None
+    out = []
+    for x in t[1:]:
+        sh, ok, sound, once, noties = x.split(':')
+        out.append({'suite': bytes.fromhex(sh if sh != '-' else ''), 'ok': ok == '1', 'sound': sound == '1',
+                    'once': once == '1', 'noties': noties == '1'})
+    return out
 
 
 def canon_impl(rc, matrix, tree):
@@ -422,7 +591,7 @@ def compare(model, impl, asan_abort):
 
 # ---- running ---------------------------------------------------------------------------------------------------
 
-def run_one(binary, work, idx, case, tag=''):
+def run_one(binary, work, idx, case, tag='', rerun=False):
     root = os.path.join(work, 'c%s%d' % (tag, idx))
     os.makedirs(root)
     try:
@@ -431,24 +600,91 @@ def run_one(binary, work, idx, case, tag=''):
         rc, err, out = fx.run_impl(binary, root, case, env=env)
         matrix = None
         perr = None
+        index = None
         idxp = os.path.join(out, 'index.html')
         if os.path.exists(idxp):
+            index = open(idxp, 'rb').read()
             try:
-                matrix = fx.parse_index(open(idxp, 'rb').read())
+                matrix = fx.parse_index(index)
             except ValueError as e:
                 perr = str(e)
         tree = fx.read_tree(out) if rc == 0 else {}
-        return {'rc': rc, 'err': fx.classify_stderr(err), 'stderr': err[-400:].decode('latin1'),
-                'matrix': matrix, 'tree': tree, 'parse_error': perr}
+        ob = {'rc': rc, 'err': fx.classify_stderr(err), 'stderr': err[-400:].decode('latin1'),
+              'matrix': matrix, 'tree': tree, 'parse_error': perr, 'index': index, 'rerun': None}
+        if rerun and rc == 0:
+            # a second generation into the populated output directory
+            before = dict(tree)
+            r2 = subprocess.run([binary.encode(), b'-o', out.encode()] + fx.arch_args(root, case), stdout=subprocess.PIPE,
+                                stderr=subprocess.PIPE, timeout=60, env=env)
+            after = fx.read_tree(out)
+            index2 = open(idxp, 'rb').read() if os.path.exists(idxp) else None
+            ob['rerun'] = {'rc': r2.returncode, 'err': fx.classify_stderr(r2.stderr),
+                           'untouched': after == before and index2 == index}
+        return ob
     finally:
         shutil.rmtree(root, ignore_errors=True)
 
 
 def load_corpus():
-    return [json.load(open(p)) for p in sorted(glob.glob(os.path.join(common.VERIF, 'corpus', 'C14', '*.json')))]
+    """corpus/C14/*.json, in name order; they run first.  Every fixed:/known entry of known_findings.json for C14 names
+    its replay here, so a missing or empty directory is a broken check, not an empty list."""
+    d = os.path.join(common.VERIF, 'corpus', 'C14')
+    if not os.path.isdir(d):
+        raise common.BuildFailure('corpus directory %s is missing' % d)
+    paths = sorted(glob.glob(os.path.join(d, '*.json')))
+    if not paths:
+        raise common.BuildFailure('corpus directory %s holds no case' % d)
+    known = common.load_known()
+    want = set()
+    for k in known.get('known', []):
+        if k.get('property') == 'C14':
+            want |= set(re.findall(r'(\d\d_[A-Za-z0-9_]+\.json)', k.get('what', '')))
+    for f in known.get('fixed', []):
+        if isinstance(f, str) and 'property=C14' in f:
+            want |= set(re.findall(r'(\d\d_[A-Za-z0-9_]+\.json)', f))
+    missing = sorted(want - {os.path.basename(x) for x in paths})
+    if missing:
+        raise common.BuildFailure('corpus/C14 lacks the replay(s) known_findings.json names: %s' % ', '.join(missing))
+    return [json.load(open(x)) for x in paths]
 
 
-def signatures(case, feat, clauses, ob, rates, asan):
+def row_signatures(report, matrix):
+    """the cell clause, row by row (C14_oracle_clause6_is_per_row, C14_oracle_row_accepts_model): one (signature, what)
+    per kind of failing row.  Only a row whose OWN suite violates the guard, and that is still sound, is the known finding."""
+    out = []
+    seen = set()
+    ncols = len((matrix or {}).get('columns', []))
+    lens = {}
+    for r in (matrix or {}).get('rows', []):
+        lens.setdefault(r['suite'].encode('latin1'), len(r['cells']))
+    for r in report:
+        nm = r['suite'].decode('latin1')
+        guard = r['once'] and r['noties']
+        if r['ok'] and r['sound']:
+            continue
+        if guard:
+            sig = SIG_GUARDED
+            what = ('row %r: a cell does not show the status/link of the run of its suite in its invocation, although the '
+                    'suite is recorded at most once per invocation and its invocations share their start time with no other' % nm)
+        elif not r['sound']:
+            if lens.get(r['suite'], 0) > ncols and not r['once']:
+                continue        # clause 7 reports the overlong row of a suite recorded twice (column-pointer-out-of-bounds)
+            sig = SIG_UNSOUND
+            what = ('row %r: a cell shows something that is not the status and arch/date/log link of a run of this suite '
+                    'in a column no newer than that run, or the row is longer than the header' % nm)
+        else:
+            why = 'the suite is recorded twice in one invocation' if not r['once'] else \
+                'an invocation in which the suite ran shares its start time with another invocation'
+            sig = SIG_WRONG
+            what = ('row %r: a run is shown under another invocation (%s: runs are matched to columns by start time only)'
+                    % (nm, why))
+        if sig not in seen:
+            seen.add(sig)
+            out.append((sig, what))
+    return out
+
+
+def signatures(case, feat, clauses, ob, rates, asan, report):
     """one (signature, what) per failed clause; the verdict itself is the extracted oracle's"""
     out = []
     for c in clauses:
@@ -473,20 +709,20 @@ def signatures(case, feat, clauses, ob, rates, asan):
         elif c == 5:
             out.append(('suite-order', 'the rows are not the suites with failing suites first (by failures, then name), then passing, then ../'))
         elif c == 6:
-            if feat['dup_suite'] or feat['equal_times']:
-                why = 'the same suite twice in one invocation' if feat['dup_suite'] else 'two invocations with equal start times'
-                out.append((SIG_WRONG, 'a cell does not show the run of its suite in its invocation (%s: runs are matched '
-                            'to columns by start time only)' % why))
-            else:
-                out.append(('cell-mismatch', 'a cell does not show the status/link of the run of its suite in its invocation'))
+            pass            # judged row by row below
         elif c == 7:
-            if feat['dup_suite']:
+            # an overlong row is the repaired defect D9 only when ITS suite is recorded twice in one invocation
+            ncols = len((ob['matrix'] or {}).get('columns', []))
+            twice = {r['suite'] for r in (report or []) if not r['once']}
+            long_rows = [r['suite'].encode('latin1') for r in (ob['matrix'] or {}).get('rows', []) if len(r['cells']) > ncols]
+            if long_rows and all(x in twice for x in long_rows):
                 out.append((SIG_OOB, 'a row has more cells than there are columns: the column pointer of render_suite '
-                            'ran past the last invocation (the same suite twice in one invocation)'))
+                            'ran past the last invocation (row %r: the same suite twice in one invocation)' % long_rows[0].decode('latin1')))
             else:
                 out.append(('row-longer-than-header', 'a row has more cells than there are columns'))
         elif c == 8:
             out.append(('output-tree', 'the files below the output directory are not the specified copies'))
+    out += row_signatures(report or [], ob['matrix'])
     if asan:
         if feat['dup_suite'] and 'render_suite' in asan:
             out.append((SIG_OOB, 'AddressSanitizer: %s (the same suite twice in one invocation)' % asan))
@@ -495,12 +731,40 @@ def signatures(case, feat, clauses, ob, rates, asan):
     return out
 
 
-def evaluate(ctx, cases, res, impl, asan_impl=None, asan_streams=('dup',)):
+def check_self(res, slf, slfrows, pg, feat, outside):
+    """the oracle and the reader applied to the MODEL's own page: executed forms of the theorems; a mismatch is a tie error"""
+    rep = parse_report(slfrows)
+    if slf not in ('ok', '6'):
+        res.tie_errors.append('oracle applied to the model\'s own page says %r (C14_oracle_accepts_model_partial: ok or 6); '
+                              'features %r' % (slf[:40], feat))
+    if rep is not None:
+        res.count('self-lane-rows', len(rep))
+        bad = [r for r in rep if not r['sound'] or (r['once'] and r['noties'] and not r['ok'])]
+        if bad:
+            res.tie_errors.append('C14_oracle_row_accepts_model fails on the model\'s own page: row %r sound=%s guard=%s ok=%s'
+                                  % (bad[0]['suite'], bad[0]['sound'], bad[0]['once'] and bad[0]['noties'], bad[0]['ok']))
+        if (slf == '6') != any(not r['ok'] for r in rep):
+            res.tie_errors.append('C14_oracle_clause6_is_per_row fails on the model\'s own page: spec_check says %r, rows %r'
+                                  % (slf, [(r['suite'], r['ok']) for r in rep][:6]))
+        if slf == '6':
+            res.count('model-page-fails-clause-6')
+    elif slf == '6':
+        res.tie_errors.append('the model\'s page fails clause 6 but there is no row report')
+    if pg != '!':
+        _h, safe, rt = pg.split(' ')
+        res.count('model-page-safe=%s roundtrip=%s' % (safe, rt))
+        if safe == '1' and rt != 'R':
+            res.tie_errors.append('C14_index_roundtrip fails: page_safeb holds and the reader says %s on the model\'s bytes' % rt)
+        if outside is None and safe != '1':
+            res.tie_errors.append('C14_index_roundtrip_input fails: the names of the case are plain and page_safeb is false')
+
+
+def evaluate(ctx, cases, res, impl, asan_impl=None, asan_streams=('dup',), rerun_every=5):
     drv = ctx.build_driver('ht', withz=True)
     work = ctx.mkscratch('c14work')
     binary = os.path.join(impl, 'robsd-regress-html')
     with ThreadPoolExecutor(8) as ex:
-        obs = list(ex.map(lambda ic: run_one(binary, work, ic[0], ic[1]), enumerate(cases)))
+        obs = list(ex.map(lambda ic: run_one(binary, work, ic[0], ic[1], rerun=(ic[0] % rerun_every == 0)), enumerate(cases)))
         aobs = [None] * len(cases)
         if asan_impl:
             ab = os.path.join(asan_impl, 'robsd-regress-html')
@@ -513,46 +777,74 @@ def evaluate(ctx, cases, res, impl, asan_impl=None, asan_streams=('dup',)):
         qs.append(' '.join(['run'] + it))
         qs.append(' '.join(['rates'] + it))
         qs.append(' '.join(['self'] + it))
-        try:
-            qs.append(' '.join(['chk'] + it + obs_tokens(ob['rc'], ob['matrix'] if ob['rc'] == 0 else None, ob['tree'])))
-        except ValueError as e:
-            ob['parse_error'] = str(e)
-            qs.append('statuses')
+        qs.append(' '.join(['selfrows'] + it))
+        qs.append(' '.join(['page'] + it))
+        qs.append(' '.join(['judge'] + it + judge_tokens(ob['rc'], ob['index'] if ob['rc'] == 0 else None, ob['tree'])))
     ans = common.run_driver(drv, qs)
+    K = 6
     for i, (c, ob) in enumerate(zip(cases, obs)):
-        m, rt, slf, chk = ans[4 * i], ans[4 * i + 1], ans[4 * i + 2], ans[4 * i + 3]
+        m, rt, slf, slfrows, pg, jd = ans[K * i:K * i + K]
         res.evaluations += 1
         feat = features(c)
-        # C14_oracle_accepts_model_partial, executed: the oracle accepts the model's own page, clause 6 apart,
-        # and clause 6 only where some suite violates the per-row guard
-        if slf != 'ok':
-            res.count('model-page-fails-clause-6')
-            if slf != '6' or not (feat['dup_suite'] or feat['equal_times']):
-                res.tie_errors.append('oracle applied to the model\'s own page says %r (theorem: ok, or 6 under ties/duplicates only); '
-                                      'features %r' % (slf[:40], feat))
+        outside = markup_names(c)
+        check_self(res, slf, slfrows, pg, feat, outside)
         res.count('stream=' + c.get('stream', 'corpus'))
         res.count('arches=%d' % feat['narch'])
-        res.count('invocations=%s' % (feat['ninv'] if feat['ninv'] < 8 else '8+'))
+        res.count('invocations=%s' % (feat['ninv'] if feat['ninv'] < 8 else '8-63' if feat['ninv'] < 64 else '64+'))
         res.count('exit=%s' % ob['rc'])
         if ob['rc'] != 0:
             res.count('error=' + ob['err'])
-        for k in ('equal_times', 'dup_suite', 'missing_runs'):
-            if feat[k]:
+        for k in ('equal_times', 'dup_suite', 'missing_runs', 'overlap', 'big_log'):
+            if feat.get(k):
                 res.count(k)
-        if ob['matrix']:
+        if ob['matrix'] and outside is None:
             for r in ob['matrix']['rows']:
                 for cell in r['cells']:
                     res.count('cell=' + ('empty' if cell is None else cell[0]))
-        if ob['parse_error']:
-            res.disagreements.append({'case': c, 'model': m[:300], 'impl': 'index.html not understood: ' + ob['parse_error']})
-            continue
+        # ---- the rerun lane (observed, not part of the property: the note says so) ----
+        if ob['rerun'] is not None and feat['ninv'] >= 1:
+            res.count('rerun-lane')
+            rr = ob['rerun']
+            if rr['rc'] != 1 or rr['err'] != 'mkdir' or not rr['untouched']:
+                res.tie_errors.append('second generation into the populated output directory: exit %s (%s), output %s - '
+                                      'the note says: exit 1 at the first mkdir, nothing touched'
+                                      % (rr['rc'], rr['err'], 'untouched' if rr['untouched'] else 'CHANGED'))
+        # ---- correspondence: exit status, bytes of index.html, tree ----
         try:
             model = parse_model(m)
         except ValueError as e:
             res.disagreements.append({'case': c, 'model': str(e), 'impl': ''})
             continue
+        diffs = []
+        mbytes = None if pg == '!' else bytes.fromhex(pg.split(' ')[0].replace('-', ''))
+        if ob['rc'] == 0 and model['exit'] == 0:
+            res.count('index-compared-bytewise')
+            if mbytes != ob['index']:
+                k = next((j for j, (x, y) in enumerate(zip(mbytes or b'', ob['index'] or b'')) if x != y),
+                         min(len(mbytes or b''), len(ob['index'] or b'')))
+                diffs.append('index.html differs from the model at byte %d: model %r impl %r'
+                             % (k, (mbytes or b'')[max(0, k - 40):k + 40], (ob['index'] or b'')[max(0, k - 40):k + 40]))
+        if ob['rc'] != 0 and ob['index'] is not None:
+            diffs.append('exit %s but an index.html was written (the model writes none: HtmlPage.index_bytes)' % ob['rc'])
+        if outside is not None:
+            # names that change the markup: nothing is parsed, only exit status, bytes and tree are compared
+            res.count('outside: %s empty, with white space at an end, with < or a double quote (html.c does not escape)' % outside)
+            iexit = ob['rc'] if ob['rc'] in (0, 1) else ob['rc']
+            if model['exit'] != iexit:
+                diffs.append('exit: model %s impl %s' % (model['exit'], iexit))
+            elif iexit == 0:
+                itree = {hb(os.fsencode(p_)): ('!' if v is None else hexs(v)) for p_, v in ob['tree'].items()}
+                if model['tree'] != itree:
+                    diffs.append('output tree differs (case with markup in names)')
+            if diffs:
+                res.disagreements.append({'case': c, 'model': m[:400], 'impl': diffs[:4], 'stderr': ob['stderr'][-200:]})
+            continue
+        if ob['parse_error'] and not jd.startswith('F'):
+            res.tie_errors.append('the python reading of index.html fails (%s) where the strict reader succeeds' % ob['parse_error'])
+            continue
         impl_c = canon_impl(ob['rc'], ob['matrix'], ob['tree'])
-        diffs, oob = compare(model, impl_c, False)
+        d2, oob = compare(model, impl_c, False) if not ob['parse_error'] else ([], False)
+        diffs += d2
         if oob:
             res.count('model-out-of-bounds-read')
         a = aobs[i]
@@ -567,22 +859,48 @@ def evaluate(ctx, cases, res, impl, asan_impl=None, asan_streams=('dup',)):
             else:
                 d2, _ = compare(model, canon_impl(a['rc'], a['matrix'], a['tree']), False)
                 diffs += ['(sanitizer build) ' + x for x in d2]
+                if a['rc'] == 0 and model['exit'] == 0 and a['index'] != mbytes:
+                    diffs.append('(sanitizer build) index.html differs from the model')
         if diffs:
             res.disagreements.append({'case': c, 'model': m[:400], 'impl': diffs[:4], 'stderr': ob['stderr'][-200:]})
-        # the oracle on what the implementation did
+        # ---- the oracle on what the implementation did ----
         rates = {}
         if rt.startswith('v'):
             for tok in rt.split(' ')[1:]:
                 ident, tot, fl, sr, _tm = tok.split(':')
                 ah, dh = ident.split('/')
                 rates[(bytes.fromhex(ah if ah != '-' else '').decode('latin1'), bytes.fromhex(dh if dh != '-' else '').decode('latin1'))] = (int(tot), int(fl), int(sr))
+        res.count('oracle-judged')
+        if jd.startswith('F') and len(jd) <= 3:
+            stage = {'F1': 'tokens (a malformed tag, a duplicate attribute)', 'F2': 'nesting (an element not closed in order, a stray end tag)',
+                     'F3': 'shape (not the document regress-html.c writes: unexpected element, attribute or cell)'}.get(jd, jd)
+            res.oracle_failures.append({'case': c, 'signature': SIG_MALFORMED,
+                                        'what': 'the strict reader rejects index.html at stage %s' % stage,
+                                        'impl': {'exit': ob['rc'], 'stderr': ob['err']}})
+            continue
+        parts = jd.split(' | ')
+        if len(parts) != 3 or not parts[1].startswith('C ') or not parts[2].startswith('R '):
+            res.tie_errors.append('oracle: driver answered %r' % jd[:200])
+            continue
+        mtx, chk, rep = parts[0], parts[1][2:], parse_report(parts[2][2:])
+        if mtx.startswith('M') and ob['matrix'] is not None:
+            res.count('readers-cross-checked')
+            try:
+                same = matrix_tokens(ob['matrix']) == mtx
+            except ValueError as e:
+                same = False
+            if not same:
+                res.tie_errors.append('the strict reader (HtmlParse.parse_index) and the python reading of index.html differ '
+                                      'on a case whose names are plain')
         clauses = [] if chk == 'ok' else [int(x) for x in chk.split(',')] if re.fullmatch(r'[\d,]+', chk) else [0]
         if clauses == [0]:
             res.tie_errors.append('oracle: driver answered %r' % chk[:200])
             clauses = []
+        if 6 in clauses and not (rep and any(not r['ok'] for r in rep)):
+            res.tie_errors.append('clause 6 without a failing row in the report (C14_oracle_clause6_is_per_row)')
         if ob['rc'] not in (0, 1) and 1 not in clauses:
             clauses.append(1)
-        for sig, what in signatures(c, feat, clauses, ob, rates, asan_report):
+        for sig, what in signatures(c, feat, clauses, ob, rates, asan_report, rep):
             res.oracle_failures.append({'case': c, 'signature': sig, 'what': what,
                                         'impl': {'exit': ob['rc'], 'stderr': ob['err']}})
         if ob['rc'] == 0 and feat['ninv'] >= 2 and feat['nsuites'] >= 2 and feat['missing_runs']:
@@ -659,27 +977,50 @@ def run(ctx, n=None, streams=None):
     res = common.Result()
     res.rule = ('trees generated per stream (plain: distinct start times, one run per suite and invocation; tie: equal '
                 'start times across invocations; dup: a suite recorded twice in an invocation, incl. 16 invocations so '
-                'that the vector is full; error: one invalid invocation; wide: 16-40 invocations; special: suite and log names '
-                'with &, quote, semicolon, blank, tab, %, #, ?, UTF-8; many: 30-80 suites), 1-3 arch arguments, '
+                'that the vector is full; error: one invalid invocation; wide: 16-70 invocations (the vector grows at 16, 32 '
+                'and 64); overlap: 2-4 arches started within minutes of each other, steps minutes to hours apart, so that a '
+                'suite runs after another arch\'s invocation has started; special: suite and log names '
+                'with &, quote, semicolon, blank, tab, %, #, ?, UTF-8; markup: names with <, double quote or white space at an '
+                'end (outside the property: compared byte for byte, not judged); many: 30-80 suites; biglog: one log above '
+                '8 KiB), 1-4 arch arguments, '
                 'suites drifting over time, several invocations per day, exit codes incl. 124, logs with every marker '
                 'kind, tags/dmesg/comment/patches present or not, attic/hidden/plain-file entries; non-trivial = exit 0 '
-                'with at least two invocations, two suites and invocations that differ in the suites they ran; distinct '
-                'by content hash')
+                'with at least two invocations, two suites and invocations that differ in the suites they ran, names plain; '
+                'distinct by content hash')
     n = n or ctx.budget(220, 3000)
-    mix = streams or (['plain'] * 8 + ['tie'] * 4 + ['dup'] * 3 + ['error'] * 3 + ['wide'] * 1 + ['special'] * 2 + ['many'] * 1)
-    cases = load_corpus() + [gen_case(ctx.rng, mix[i % len(mix)]) for i in range(n)]
+    mix = streams or (['plain'] * 7 + ['tie'] * 4 + ['dup'] * 3 + ['error'] * 3 + ['wide'] * 1 + ['special'] * 2 + ['many'] * 1 +
+                      ['overlap'] * 3 + ['markup'] * 1)
+    fixed = [] if streams else [gen_case(ctx.rng, 'wide', {'ninv': 65}), gen_case(ctx.rng, 'biglog'),
+                                gen_case(ctx.rng, 'overlap'), gen_case(ctx.rng, 'markup')]
+    cases = load_corpus() + fixed + [gen_case(ctx.rng, mix[i % len(mix)]) for i in range(n)]
     res.samples = [{'stream': c.get('stream'), 'features': features(c)} for c in cases[:4]]
-    res.assumptions = ['up to 40 invocations and 19 suites per case in the correspondence (the theorems have no bound); '
-                       'names from [A-Za-z0-9/._-] except in the special stream (never <, >, double quote: html.c writes names into the markup '
-                       'unescaped); start times distinct unless the stream says otherwise']
+    res.assumptions = ['up to 70 invocations and 80 suites per case in the correspondence (the theorems have no bound); '
+                       'names from [A-Za-z0-9/._-] except in the special and markup streams; start times distinct unless the '
+                       'stream says otherwise']
     impl = ctx.build_impl()
     asan = ctx.build_impl('-fsanitize=address -g', cc='clang', ldflags='-fsanitize=address')
     leaf_check(ctx, res, impl)
-    streams_asan = ('dup',) if ctx.tier != 'thorough' else ('plain', 'tie', 'dup', 'error', 'wide', None)
+    streams_asan = ('dup',) if ctx.tier != 'thorough' else ('plain', 'tie', 'dup', 'error', 'wide', 'overlap', 'biglog', None)
     chunk = 500
     for i in range(0, len(cases), chunk):
         evaluate(ctx, cases[i:i + chunk], res, impl, asan, streams_asan)
     res.traces_validated = res.evaluations
+    # a lane that produced no verdict is a broken check, not a pass
+    d = res.distribution
+    need = [('oracle-judged', 'no case reached the oracle'), ('index-compared-bytewise', 'no index.html was compared with the model'),
+            ('readers-cross-checked', 'the strict reader was never cross-checked'), ('self-lane-rows', 'the self lane judged no row'),
+            ('asan-runs', 'nothing ran under the sanitizer build'), ('rerun-lane', 'the rerun lane never ran')]
+    if not streams:
+        need += [('invocations=64+', 'no case with 64 or more invocations'), ('big_log', 'no log above 8 KiB'),
+                 ('overlap', 'no case with invocations of different arches interleaved in time'),
+                 ('equal_times', 'no case with equal start times'), ('dup_suite', 'no case with a suite recorded twice')]
+        if not any(k.startswith('outside: ') for k in d):
+            res.tie_errors.append('no case outside the property was generated (markup stream)')
+    for k, why in need:
+        if not d.get(k):
+            res.tie_errors.append('vacuous lane: ' + why)
+    if not res.extra.get('leaf_evaluations') and not res.tie_errors:
+        res.tie_errors.append('vacuous lane: the leaf harness compared nothing')
     return res
 
 
@@ -695,9 +1036,10 @@ def replay(ctx, rep):
     res = common.Result()
     impl = ctx.build_impl()
     asan = ctx.build_impl('-fsanitize=address -g', cc='clang', ldflags='-fsanitize=address')
-    evaluate(ctx, [case], res, impl, asan, (case.get('stream'),))
-    print('features:', features(case))
+    evaluate(ctx, [case], res, impl, asan, (case.get('stream'),), rerun_every=1)
+    print('features:', features(case), 'outside:', markup_names(case))
     print('disagreements:', json.dumps(res.disagreements, indent=1)[:3000])
+    print('tie errors:', res.tie_errors)
     print('oracle failures:', [(f['signature'], f['what']) for f in res.oracle_failures])
     unknown = [f for f in res.oracle_failures if not common.match_known('C14', f['signature'])]
-    return 1 if (res.disagreements or unknown) else 0
+    return 1 if (res.disagreements or unknown or res.tie_errors) else 0
